@@ -32,10 +32,15 @@ type Config struct {
 	Limit   int     `json:"limit"`
 	After   []int   `json:"after"`
 	Fails   []int   `json:"fails"`
+	Ext     bool    `json:"ext"` // the caller may cancel the context it passed in (an action the chooser can pick)
 }
 
 func (c Config) Key() string {
-	return fmt.Sprintf("n%d d%v inv%v l%d a%v f%v", c.N, c.Deps, c.Inverse, c.Limit, c.After, c.Fails)
+	k := fmt.Sprintf("n%d d%v inv%v l%d a%v f%v", c.N, c.Deps, c.Inverse, c.Limit, c.After, c.Fails)
+	if c.Ext {
+		k += " ext"
+	}
+	return k
 }
 
 // Event is one released gate (or the return of the call).
@@ -52,6 +57,7 @@ type Event struct {
 	Limit   int     `json:"limit"`
 	After   []int   `json:"after"`
 	Fails   []int   `json:"fails"`
+	Ext     bool    `json:"ext"` // the caller may cancel the context it passed in (an action the chooser can pick)
 }
 
 // MarshalJSON writes only the fields of the line's kind (TLC's JSON reader rejects null).
@@ -68,7 +74,7 @@ func (e Event) MarshalJSON() ([]byte, error) {
 		for i := range e.Deps {
 			d[i] = nz(e.Deps[i])
 		}
-		return json.Marshal(map[string]interface{}{"kind": "cfg", "n": e.N, "deps": d, "inverse": e.Inverse, "limit": e.Limit, "after": nz(e.After), "fails": nz(e.Fails)})
+		return json.Marshal(map[string]interface{}{"kind": "cfg", "n": e.N, "deps": d, "inverse": e.Inverse, "limit": e.Limit, "after": nz(e.After), "fails": nz(e.Fails), "ext": e.Ext})
 	case "ret":
 		return json.Marshal(map[string]interface{}{"kind": "ret", "ret": e.Ret})
 	}
@@ -284,9 +290,13 @@ func Run(cfg Config, ch Chooser) Result {
 	}
 	done := make(chan outcome, 1)
 	mainReady := make(chan int64)
+	ctx, cancel := context.WithCancel(context.Background())
+	defer cancel()
+	callerCancelled := false
+	cancelAction := &Arrival{Role: "env", Point: "cancel"} // offered to the chooser next to the parked goroutines
 	go func() {
 		mainReady <- gid()
-		m, err := graph.CollectInDependencyOrder(context.Background(), p, visitor, Options(cfg)...)
+		m, err := graph.CollectInDependencyOrder(ctx, p, visitor, Options(cfg)...)
 		done <- outcome{m, err}
 	}()
 	mainG := <-mainReady
@@ -402,6 +412,10 @@ func Run(cfg Config, ch Chooser) Result {
 			}
 			break
 		}
+		offer := cfg.Ext && !callerCancelled && !finished
+		if offer {
+			parked = append(parked, cancelAction)
+		}
 		if len(parked) > 1 {
 			res.Reordered = true
 		}
@@ -412,6 +426,21 @@ func Run(cfg Config, ch Chooser) Result {
 		}
 		a := parked[i]
 		parked = append(parked[:i], parked[i+1:]...)
+		if offer && a != cancelAction {
+			for k, x := range parked {
+				if x == cancelAction {
+					parked = append(parked[:k], parked[k+1:]...)
+					break
+				}
+			}
+		}
+		if a == cancelAction { // the caller cancels: nothing is released, goroutines selecting on ctx.Done wake up
+			callerCancelled = true
+			cancel()
+			res.Events = append(res.Events, Event{Kind: "ev", Role: "env", Point: "cancel", Node: 0})
+			res.Steps++
+			continue
+		}
 		res.Events = append(res.Events, Event{Kind: "ev", Role: a.Role, Point: a.Point, Node: a.Node})
 		res.Steps++
 		if a.Point == "visit" {
@@ -437,11 +466,11 @@ func Run(cfg Config, ch Chooser) Result {
 				anyFailed = true
 			}
 		}
-		if (out.err == nil) == anyFailed {
+		if (out.err == nil) == anyFailed && !(callerCancelled && out.err != nil) {
 			viol(fmt.Sprintf("result: returned %v although failing visitor ran = %v", out.err, anyFailed))
 		}
 		if out.err != nil {
-			ok := false
+			ok := callerCancelled && errors.Is(out.err, context.Canceled) // the context's error, when the caller cancelled
 			for n := range entered {
 				if fails[n] && out.err.Error() == "boom "+Name(n) {
 					ok = true
@@ -451,7 +480,7 @@ func Run(cfg Config, ch Chooser) Result {
 				viol("result: returned error is not the error of a visitor that ran: " + out.err.Error())
 			}
 		}
-		if out.err == nil {
+		if out.err == nil && !callerCancelled { // a cancelled walk may return nil with services never started (DESIGN 11.7)
 			for n := 1; n <= cfg.N; n++ {
 				want := 0
 				if cfg.Expected(n) {
@@ -491,6 +520,34 @@ func returnedFailing(returned map[int]bool, fails map[int]bool) []int {
 }
 
 // ---------------------------------------------------------------- choosers
+
+// CancelAt lets Inner choose among the parked goroutines and takes the caller's cancellation (when it is on offer)
+// at step At: uniformly chosen cancel steps would almost always fall before the first visit.
+type CancelAt struct {
+	Inner Chooser
+	At    int
+}
+
+func (c CancelAt) Choose(parked []*Arrival, step int) int {
+	ci := -1
+	for i, a := range parked {
+		if a.Role == "env" {
+			ci = i
+		}
+	}
+	if ci < 0 {
+		return c.Inner.Choose(parked, step)
+	}
+	if step >= c.At || len(parked) == 1 {
+		return ci
+	}
+	rest := append(append([]*Arrival{}, parked[:ci]...), parked[ci+1:]...)
+	i := c.Inner.Choose(rest, step)
+	if i >= ci {
+		i++
+	}
+	return i
+}
 
 // Random releases a uniformly random parked goroutine.
 type Random struct{ Rng *rand.Rand }
